@@ -72,7 +72,7 @@ func ruleCallGuards(c *Ctx) {
 		},
 		{
 			ID: "runtime.LoadScript.load", Fn: [3]string{"pkg/core/interop/runtime", "", "LoadScript"}, Target: "call:pkg/vm.(*VM).LoadDynamicScript",
-			MustNode: [][]string{{"local<-pkg/vm.(*Stack).Pop", "op:&", symGetCallFlags, "pkg/smartcontract/callflag.ReadOnly"}},
+			MustNode: [][]string{{"local<-pkg/vm.(*Stack).Pop", "op:&", symGetCallFlags}}, // that the mask stays within ReadOnly is scopeless-loader's upper bound
 			Guards:   []Guard{{ID: "script-correct", Doc: "a dynamic script passes the static script check before being loaded", Alts: [][]string{{"pkg/smartcontract/scparser.IsScriptCorrect"}}}},
 		},
 	})
